@@ -481,6 +481,76 @@ let cmd_ghwreg (args : string list) : string =
     "refs=" ^ r ^ " aliases=" ^ (if tb = [] then "-" else Stdlib.String.concat "," tb)
   | _ -> "BADCASE"
 
+(* ---- serde <TypeName> <doc> ----
+   doc: n | t | f | i<decimal>; | s<hex>; | a<count>;item.. | o<count>;(s<hex>;item).. *)
+let n_of_dec (s : string) : BinNums.coq_N =
+  let ten = n_of_int 10 in
+  let acc = ref BinNums.N0 in
+  Stdlib.String.iter (fun c ->
+    if c < '0' || c > '9' then failwith ("bad decimal " ^ s);
+    acc := BinNat.N.add (BinNat.N.mul !acc ten) (n_of_int (Char.code c - 48))) s;
+  !acc
+
+let z_of_dec (s : string) : BinNums.coq_Z =
+  let neg = Stdlib.String.length s > 0 && s.[0] = '-' in
+  let body = if neg then Stdlib.String.sub s 1 (Stdlib.String.length s - 1) else s in
+  match n_of_dec body with
+  | BinNums.N0 -> BinNums.Z0
+  | BinNums.Npos p -> if neg then BinNums.Zneg p else BinNums.Zpos p
+
+let bytes_of_hexstr (h : string) : BinNums.coq_N list =
+  Stdlib.List.init (Stdlib.String.length h / 2) (fun i -> n_of_int (int_of_string ("0x" ^ Stdlib.String.sub h (2 * i) 2)))
+
+let parse_json_doc (s : string) : Serde.json =
+  let pos = ref 0 in
+  let until_semicolon () =
+    let start = !pos in
+    while s.[!pos] <> ';' do incr pos done;
+    let r = Stdlib.String.sub s start (!pos - start) in
+    incr pos; r in
+  let rec item () : Serde.json =
+    let c = s.[!pos] in
+    incr pos;
+    match c with
+    | 'n' -> Serde.JNull
+    | 't' -> Serde.JBool true
+    | 'f' -> Serde.JBool false
+    | 'i' -> Serde.JNum (z_of_dec (until_semicolon ()))
+    | 's' -> Serde.JStr (bytes_of_hexstr (until_semicolon ()))
+    | 'a' ->
+      let n = int_of_string (until_semicolon ()) in
+      let acc = ref [] in
+      for _ = 1 to n do acc := item () :: !acc done;
+      Serde.JArr (Stdlib.List.rev !acc)
+    | 'o' ->
+      let n = int_of_string (until_semicolon ()) in
+      let acc = ref [] in
+      for _ = 1 to n do
+        (match item () with
+         | Serde.JStr k -> let v = item () in acc := (k, v) :: !acc
+         | _ -> failwith "object key is not a string")
+      done;
+      Serde.JObj (Stdlib.List.rev !acc)
+    | _ -> failwith "bad document" in
+  let j = item () in
+  if !pos <> Stdlib.String.length s then failwith "trailing input in document";
+  j
+
+let cmd_serde (args : string list) : string =
+  match args with
+  | [name; doc] ->
+    (match Stdlib.List.find_opt (fun (n, _) -> str_of_bytes n = name) SerdeSchema.serde_types with
+     | None -> "NOTYPE"
+     | Some (_, t) ->
+       let j = parse_json_doc doc in
+       (match Serde.de t j with
+        | None -> "reject"
+        | Some v ->
+          (match Serde.ser t v with
+           | None -> "accept-unwritable"
+           | Some j2 -> if j2 = j then "accept-same" else "accept-differs")))
+  | _ -> "BADCASE"
+
 let dispatch (cmd : string) (args : string list) : string =
   match cmd with
   | "offsets" -> cmd_offsets args
@@ -496,6 +566,7 @@ let dispatch (cmd : string) (args : string list) : string =
   | "ghws" -> cmd_ghws args
   | "ghwreg" -> cmd_ghwreg args
   | "vcd" -> cmd_vcd args
+  | "serde" -> cmd_serde args
   | _ -> "UNSUPPORTED"
 
 let () =
